@@ -148,7 +148,9 @@ pub fn run_check(id: &str, tier: Tier) -> i32 {
     let only = std::env::var("PV_ONLY_PART").ok();
     for p in &chk.parts {
         if let Some(o) = &only {
-            if !p.scenario.contains(o.as_str()) {
+            // alternatives separated by '|', matched against "<scenario> <params>"
+            let hay = format!("{} {}", p.scenario, p.params);
+            if !o.split('|').any(|alt| hay.contains(alt)) {
                 continue;
             }
         }
@@ -260,7 +262,8 @@ pub fn run_check(id: &str, tier: Tier) -> i32 {
                 "known_findings_seen": outcome.known.iter().map(|(f, _)| f.id.clone()).collect::<Vec<_>>(),
             })
         );
-    } else {
+    } else if only.is_none() {
+        // (a filtered run is a debugging aid: it never rewrites the evidence file)
         write_evidence(&meta, &total, &outcome);
     }
     let code = verdict(chk.property, &outcome);
